@@ -2439,6 +2439,8 @@ class sptensor:
         # Case II: Replacing values at specific indices
         newsubs = key
         tt_subscheck(newsubs, nargout=False)
+        # Stored subscripts are int64 (unsigned keys stacked with them gave floats)
+        newsubs = newsubs.astype(np.int64)
 
         # No subscripts: nothing is assigned
         if newsubs.shape[0] == 0:
